@@ -3,10 +3,14 @@ package main
 // Per-function VC generation: path exploration between cut points, loop invariants, contract checking.
 
 import (
+	"context"
 	"fmt"
 	"go/types"
+	"os"
+	"path/filepath"
 	"sort"
 	"strings"
+	"time"
 
 	"golang.org/x/tools/go/ssa"
 )
@@ -66,6 +70,7 @@ type FuncVC struct {
 	maxPaths      int
 	truncated     bool
 	visits        map[*ssa.BasicBlock]int
+	nFeas, pruned int
 }
 
 func (vc *FuncVC) addTrivial(name string) { vc.trivial[name]++ }
@@ -73,13 +78,22 @@ func (vc *FuncVC) addTrivial(name string) { vc.trivial[name]++ }
 func (vc *FuncVC) addObligation(kind string, st *State, goal, info string) {
 	pc := append([]string(nil), st.pc...)
 	for _, ax := range st.axioms {
-		rel := len(ax.syms) == 0
-		for _, s := range ax.syms {
-			if strings.Contains(goal, s) {
-				rel = true
+		use := false
+		for _, u := range vc.con.Uses {
+			if u == ax.name {
+				use = true // "use a": every obligation of the function
 			}
 		}
-		if rel {
+		for _, fu := range vc.con.Forced { // "use! a for pat": only obligations whose kind contains pat
+			if strings.Contains(kind, fu.Pat) {
+				for _, n := range fu.Names {
+					if n == ax.name {
+						use = true
+					}
+				}
+			}
+		}
+		if use {
 			pc = append(pc, ax.term)
 		}
 	}
@@ -279,7 +293,19 @@ func VerifyFunc(g *Gen, fn *ssa.Function, con *Contract, maxPaths int) *FuncVC {
 	// pass 2
 	st := vc.initState()
 	env := st.specEnv(vc.pkg, vc.entryVars)
-	for _, u := range con.Uses {
+	uses := append([]string{}, con.Uses...)
+	for _, fu := range con.Forced {
+		for _, n := range fu.Names {
+			dup := false
+			for _, u := range uses {
+				dup = dup || u == n
+			}
+			if !dup {
+				uses = append(uses, n)
+			}
+		}
+	}
+	for _, u := range uses {
 		if err := assumeAxiom(st, g.DB, u); err != nil {
 			vc.errs = append(vc.errs, vc.name+": "+err.Error())
 		}
@@ -469,10 +495,14 @@ func (vc *FuncVC) explore(st *State, b *ssa.BasicBlock, idx int, prev *ssa.Basic
 				s2 := st.clone()
 				st.assume(c.T)
 				st.pathLog = append(st.pathLog, fmt.Sprintf("b%d:T", b.Index))
-				vc.explore(st, b.Succs[0], 0, b, outs)
+				if vc.feasible(st) {
+					vc.explore(st, b.Succs[0], 0, b, outs)
+				}
 				s2.assume(not(c.T))
 				s2.pathLog = append(s2.pathLog, fmt.Sprintf("b%d:F", b.Index))
-				vc.explore(s2, b.Succs[1], 0, b, outs)
+				if vc.feasible(s2) {
+					vc.explore(s2, b.Succs[1], 0, b, outs)
+				}
 			}
 			return
 		case *ssa.Jump:
@@ -629,9 +659,16 @@ func (vc *FuncVC) frameGoals(st *State, hs []string) map[string]string {
 	}
 	whole := map[string]bool{}
 	locs := map[string][]*Loc{}
+	regions := map[string][][2]string{}
 	oldEnv := st.specEnv(vc.pkg, vc.entryVars)
 	oldEnv.heaps = st.old
 	for _, m := range con.Modifies {
+		if h, lo, hi, ok := vc.elemsRegion(oldEnv, m); ok {
+			if h != "" {
+				regions[h] = append(regions[h], [2]string{lo, hi})
+			}
+			continue
+		}
 		if hs, ok := vc.mapHeapsOf(oldEnv, m); ok {
 			for _, h := range hs {
 				whole[h] = true
@@ -680,11 +717,15 @@ func (vc *FuncVC) frameGoals(st *State, hs []string) map[string]string {
 				expect = fmt.Sprintf("(store %s %s (select %s %s))", expect, l.Idx, cur, l.Idx)
 			}
 		}
-		alive0 := st.old["$alive"]
-		if alive0 == "" {
-			alive0 = st.g.heap0("$alive", "(Array Int Bool)")
+		brk0 := st.old["$brk"]
+		if brk0 == "" {
+			brk0 = st.g.heap0("$brk", "(Array Int Int)")
 		}
-		out[h] = fmt.Sprintf("(forall ((fa Int)) (! (=> (select %s fa) (= (select %s fa) (select %s fa))) :pattern ((select %s fa))))", alive0, cur, expect, cur)
+		guard := fmt.Sprintf("(< fa (select %s 0))", brk0)
+		for _, r := range regions[h] {
+			guard = fmt.Sprintf("(and %s (or (< fa %s) (>= fa %s)))", guard, r[0], r[1])
+		}
+		out[h] = fmt.Sprintf("(forall ((fa Int)) (! (=> %s (= (select %s fa) (select %s fa))) :pattern ((select %s fa))))", guard, cur, expect, cur)
 	}
 	return out
 }
@@ -698,3 +739,46 @@ func (vc *FuncVC) frameCheck(st *State, env *SpecEnv) {
 }
 
 func (vc *FuncVC) onlyFreshWrites(h string) bool { return false }
+
+// elemsRegion resolves elems(e): all elements of slice e (scalar element type) as an address region of one heap.
+func (vc *FuncVC) elemsRegion(env *SpecEnv, m *Expr) (heap, lo, hi string, ok bool) {
+	if m.Op != "call" || m.Name != "elems" || len(m.Args) != 1 {
+		return "", "", "", false
+	}
+	sv, err := env.Value(m.Args[0])
+	if err != nil || sv.V.K != KSlice {
+		vc.errs = append(vc.errs, fmt.Sprintf("modifies %s: not a slice (%v)", m.String(), err))
+		return "", "", "", true
+	}
+	sl := sv.T.Underlying().(*types.Slice)
+	switch sl.Elem().Underlying().(type) {
+	case *types.Struct, *types.Slice, *types.Array:
+		vc.errs = append(vc.errs, fmt.Sprintf("modifies %s: only slices of scalars are supported", m.String()))
+		return "", "", "", true
+	}
+	sz := vc.g.P.sizeof(sl.Elem())
+	return "mem." + memKey(sl.Elem()), sv.V.Fs[0].T, fmt.Sprintf("(+ %s %s)", sv.V.Fs[0].T, mulC(sv.V.Fs[1].T, sz)), true
+}
+
+// feasible prunes branches whose path condition is unsatisfiable (quick solver call; anything but "unsat" keeps
+// the branch). Pruning never loses obligations: an infeasible path only yields vacuously valid ones.
+func (vc *FuncVC) feasible(st *State) bool {
+	if st.dry != nil || !pruneInfeasible {
+		return true
+	}
+	vc.nFeas++
+	o := &Obligation{Name: "feasibility", NDecl: len(vc.g.decls), PC: st.pc, Goal: "false"}
+	f := filepath.Join(os.TempDir(), fmt.Sprintf("govc-feas-%d-%d.smt2", os.Getpid(), vc.nFeas))
+	os.WriteFile(f, []byte(vc.g.smtText(o, false)), 0o644)
+	defer os.Remove(f)
+	ctx, cancel := context.WithTimeout(context.Background(), 60*time.Second)
+	defer cancel()
+	r := runSolver(ctx, SolverCfg{"z3", []string{"prlimit", "--cpu=2", "--", "z3", "-smt2"}}, f)
+	if r.res == "unsat" {
+		vc.pruned++
+		return false
+	}
+	return true
+}
+
+var pruneInfeasible = true
